@@ -106,6 +106,23 @@ func runCheck(args []string) int {
 		}
 	}
 	prog, ssaPkgs, loadSec := loadProgram(pkgDirs)
+	harnessPresent = func(pkg, fn string) bool {
+		p := ssaPkgs[pkg]
+		return p == nil || p.Func(fn) != nil // packages that were not loaded are not touched by this run
+	}
+	// harnesses whose file had to be left out because it does not compile against the current tree
+	var uncompiled []HarnessSpec
+	{
+		kept := specs[:0:0]
+		for _, s := range specs {
+			if p := ssaPkgs[s.Pkg]; p == nil || p.Func(s.Func) == nil {
+				uncompiled = append(uncompiled, s)
+			} else {
+				kept = append(kept, s)
+			}
+		}
+		specs = kept
+	}
 	active := activeKnown()
 	type task struct {
 		h    int
@@ -495,7 +512,10 @@ func runCheck(args []string) int {
 	if replayLog != "" && len(replayLog) < 6000 {
 		fmt.Println("replay output:\n" + replayLog)
 	}
-	if exit == 0 && incompleteAll {
+	for _, u := range uncompiled {
+		fmt.Printf("INCONCLUSIVE property=%s harness=%s reason=the harness does not compile against the current tree (it refers to something the tree no longer has); the other harnesses were run\n", prop, u.Func)
+	}
+	if exit == 0 && (incompleteAll || len(uncompiled) > 0) {
 		exit = 2
 	}
 	if exit == 0 && mismatches > 0 {
